@@ -848,6 +848,9 @@ func (c *specCtx) call(x *ast.CallExpr) specVal {
 	case "hasprefix":
 		a, b := c.eval(args[0]), c.eval(args[1])
 		return specVal{term: fmt.Sprintf("(sprefix %s %s)", a.term, b.term), typ: tBool}
+	case "contains":
+		a, b := c.eval(args[0]), c.eval(args[1])
+		return specVal{term: fmt.Sprintf("(scontains %s %s)", a.term, b.term), typ: tBool}
 	case "calls":
 		lit, ok := args[0].(*ast.BasicLit)
 		if !ok {
@@ -1175,6 +1178,34 @@ func (vc *VC) havocTarget(cf *Frame, st, pre *State, target string) {
 		vc.havocSV(st, strings.TrimSpace(target[6:]))
 		return
 	}
+	if strings.HasPrefix(target, "*") {
+		// *x: the object x points to (every field of a struct, or the cell of a non-struct)
+		inner := strings.TrimSpace(target[1:])
+		v, err := vc.specEval(cf, pre, pre, inner, nil)
+		if err != nil {
+			vc.unsupportedf("modifies %s: %v", target, err)
+			return
+		}
+		pt, ok := v.typ.Underlying().(*types.Pointer)
+		if !ok {
+			vc.unsupportedf("modifies %s: not a pointer", target)
+			return
+		}
+		if isStructLike(pt.Elem()) {
+			for _, f := range structFieldNames(pt.Elem()) {
+				vc.havocTarget(cf, st, pre, inner+"."+f)
+			}
+			return
+		}
+		sv := vc.cellSV(pt.Elem())
+		nv := vc.fresh(vc.sortOf(pt.Elem()), "hv_cell")
+		vc.set(st, sv, fmt.Sprintf("(store %s %s %s)", vc.get(st, sv), v.term, nv))
+		vc.typeFacts(st, nv, pt.Elem())
+		if vc.frameFr != nil {
+			vc.assignCheck(vc.frameFr, st, sv, v.term, vc.framePos)
+		}
+		return
+	}
 	if strings.HasSuffix(target, "[*]") {
 		inner := strings.TrimSuffix(target, "[*]")
 		v, err := vc.specEval(cf, pre, pre, inner, nil)
@@ -1328,6 +1359,25 @@ func (vc *VC) modTargetSVs(callee *ssa.Function, target string) []string {
 	if strings.HasPrefix(target, "ghost ") {
 		return []string{strings.TrimSpace(target[6:])}
 	}
+	if strings.HasPrefix(target, "*") {
+		inner := strings.TrimSpace(target[1:])
+		t := vc.eng.staticTypeOf(callee, inner)
+		if t == nil {
+			return []string{"*"}
+		}
+		pt, ok := t.Underlying().(*types.Pointer)
+		if !ok {
+			return []string{"*"}
+		}
+		if isStructLike(pt.Elem()) {
+			var out []string
+			for _, f := range structFieldNames(pt.Elem()) {
+				out = append(out, vc.modTargetSVs(callee, inner+"."+f)...)
+			}
+			return out
+		}
+		return []string{vc.cellSV(pt.Elem())}
+	}
 	if strings.HasSuffix(target, "[*]") {
 		// element heap of some slice type: find by evaluating the type statically
 		t := vc.eng.staticTypeOf(callee, strings.TrimSuffix(target, "[*]"))
@@ -1389,4 +1439,16 @@ func isNumeral(t string) bool {
 		}
 	}
 	return true
+}
+
+func structFieldNames(t types.Type) []string {
+	st, ok := t.Underlying().(*types.Struct)
+	if !ok {
+		return nil
+	}
+	var out []string
+	for i := 0; i < st.NumFields(); i++ {
+		out = append(out, st.Field(i).Name())
+	}
+	return out
 }
